@@ -126,12 +126,16 @@ Section Builders.
       | Some k => (c_with st ser bc k, RRejected (force_done || result_of C_MAX_SKIPPED_ITEMS k))
       end.
 
-    Definition c_step (st : cstate) (a : cattempt) : cstate * result :=
+    (* [guard] = the test `cost > constants.max_block_cost_clvm ||` in front of the second sum (commit "fix: block
+       builders reject a declared cost above the block limit before summing").  [c_step] below is the code as it is;
+       guard = false is the code BEFORE that fix, kept only for the documentation witnesses of BuilderRefuted.v. *)
+    Definition c_step_gen (guard : bool) (st : cstate) (a : cattempt) : cstate * result :=
       let cost := ca_cost a in
       match add3 m (cb_byte_cost st) (cb_block_cost st) C_MIN_COST_THRESHOLD with
       | None => (st, RPanic)
       | Some t1 =>
           if maxc <? t1 then c_skip st (cb_ser st) (cb_byte_cost st) true
+          else if guard && (maxc <? cost) then c_skip st (cb_ser st) (cb_byte_cost st) false   (* `||` short-circuits *)
           else
             match add3 m (cb_byte_cost st) (cb_block_cost st) cost with
             | None => (st, RPanic)
@@ -171,6 +175,9 @@ Section Builders.
                   end
             end
       end.
+
+    Definition c_step := c_step_gen true.
+    Definition c_step_prefix := c_step_gen false.
 
     (* cost(): None = overflow panic *)
     Definition c_cost (st : cstate) : option N := wadd m U64 (cb_byte_cost st) (cb_block_cost st).
@@ -231,7 +238,8 @@ Section Builders.
                    RRejected (result_of I_MAX_SKIPPED_ITEMS k))
       end.
 
-    Definition i_step (st : istate) (a : iattempt) : istate * result :=
+    (* [guard]: `cost > self.max_block_cost ||` in front of the second sum; see c_step_gen *)
+    Definition i_step_gen (guard : bool) (st : istate) (a : iattempt) : istate * result :=
       let cost := ia_cost a in
       match wmul m U64 WRAPPER_VBYTES cpb with
       | None => (st, RPanic)
@@ -240,6 +248,7 @@ Section Builders.
           | None => (st, RPanic)
           | Some t1 =>
               if maxc <? t1 then (st, RRejected true)            (* NOT counted as a skip *)
+              else if guard && (maxc <? cost) then i_skip st
               else
                 match add4 m (ib_byte_cost st) wrapper (ib_block_cost st) cost with
                 | None => (st, RPanic)
@@ -280,6 +289,9 @@ Section Builders.
                 end
           end
       end.
+
+    Definition i_step := i_step_gen true.
+    Definition i_step_prefix := i_step_gen false.
 
     (* self.byte_cost + WRAPPER_VBYTES * self.cost_per_byte + self.block_cost *)
     Definition i_cost (st : istate) : option N :=
